@@ -103,7 +103,7 @@ class Prog:
 
 
 def cfg(tier):
-    return (3, 1, 8) if tier == "quick" else (4, 2, 10)
+    return (3, 1, 8) if tier == "quick" else (4, 1, 10)
 
 
 def params(tier):
@@ -168,7 +168,7 @@ H = Harness(
     title="symbolic per-task enter/leave programs with shadow stacks, a concurrent task, spawned children and a canceller",
     bound_text=lambda tier: f"task A: any program of {3 if tier == 'quick' else 4} steps over {{" + "; ".join(STEPS) + "}; task B: fixed program incl. an "
     "explicit-parent context and an exceptional exit; spawned children run enter/checkpoint/leave; optional cancellation of A after 0-3 "
-    "checkpoints; FIFO schedule with " + ("one deviation within 8 decisions" if tier == "quick" else "two deviations"),
+    "checkpoints; FIFO schedule with " + ("one deviation within 8 decisions" if tier == "quick" else "one deviation within 10 decisions"),
     oracle="after every step every task's current_context() is the top of its own shadow stack (None -> NoCurrentContext); a new context's parent "
     "is the shadow top at creation (or the explicit one); a spawned task starts with its spawner's top; leaving by return / exception / raising "
     "teardown / cancellation restores exactly the previous top and closes the context",
